@@ -113,11 +113,11 @@ func hasStd(d *dialect.Dialect, id uint32, std message.Message) bool {
 
 func TestC16Automatic(t *testing.T) {
 	rec := evid.New(t, "C16", "generated node configurations (heartbeat on/off, period 20-80ms, system/autopilot type, dialect in {common, ardupilotmega, minimal, user dialects with version 0..255 with / without / with a fake HEARTBEAT or REQUEST_DATA_STREAM, none}, stream requests on/off, frequency 1..50, 1..3 channels, v1/v2 output) and histories of incoming heartbeats from generated (channel, system, component, autopilot) sources repeated several times and interleaved with other messages; oracles: heartbeats on every channel with the configured fields, status 4, dialect version, at most elapsed/period+1 of them and at least 2, none when disabled or the dialect lacks the standard message; for each distinct ArduPilot sender exactly the seven data-stream requests (1,2,3,6,10,11,12) at the configured rate addressed to it on its channel only plus one stream-requested event, nothing for other autopilots, other messages or when disabled; non-trivial = >=2 ArduPilot senders on >=2 channels plus a non-ArduPilot sender; distinct by hash of the scenario")
-	rec.Require("hb-enabled", "hb-disabled-or-missing", "sr-enabled-with-ardupilot", "sr-not-applicable", "multi-sender-multi-channel", "user-dialect", "v1-output", "several-channels-one-endpoint")
+	rec.Require("hb-enabled", "hb-disabled-or-missing", "sr-enabled-with-ardupilot", "sr-not-applicable", "multi-sender-multi-channel", "user-dialect", "v1-output", "several-channels-one-endpoint", "dialect-version-0")
 	evid.Check(t, rec, evid.N(200, 600), func(t *rapid.T) {
 		w := &c16World{}
 		w.dialectKind = rapid.SampledFrom([]string{"common", "common", "ardupilotmega", "ardupilotmega", "ardupilotmega", "minimal", "user", "user", "user", "user-no-hb", "user-fake-hb", "user-no-rds", "user-fake-rds", "nil"}).Draw(t, "dialect")
-		w.version = rapid.IntRange(0, 255).Draw(t, "version")
+		w.version = rapid.OneOf(rapid.SampledFrom([]int{0, 0, 1, 3, 255, 256, 300}), rapid.IntRange(0, 255)).Draw(t, "version")
 		w.hbEnabled = rapid.IntRange(0, 3).Draw(t, "hb") > 0
 		w.period = time.Duration(rapid.IntRange(20, 80).Draw(t, "period_ms")) * time.Millisecond
 		w.sysType = rapid.IntRange(1, 255).Draw(t, "systype")
@@ -523,13 +523,15 @@ func runC16(w *c16World) ([]string, error) {
 	}
 	if strings.HasPrefix(w.dialectKind, "user") {
 		cls = append(cls, "user-dialect")
+		if w.version == 0 && hbExpected {
+			cls = append(cls, "dialect-version-0")
+		}
 	}
 	if !w.outV2 {
 		cls = append(cls, "v1-output")
 	}
 	return cls, nil
 }
-
 
 func peerLabelsHas(peers []*sim.Peer, label string) bool {
 	for _, p := range peers {
